@@ -176,9 +176,12 @@ type captureProbe struct {
 }
 
 // instantiate applies the specification's instantiation procedure to the model.
-func (m *model) instantiate(spec *ModSpec) instResult {
+func (m *model) instantiate(spec *ModSpec) instResult { return m.instantiateAs(spec, spec.Name) }
+
+// instantiateAs instantiates spec under another instance name (sibling instances of one compiled module).
+func (m *model) instantiateAs(spec *ModSpec, name string) instResult {
 	lay := BuildLayout(spec)
-	in := &mInst{name: spec.Name, spec: spec, lay: lay, exports: map[string]mExport{}}
+	in := &mInst{name: name, spec: spec, lay: lay, exports: map[string]mExport{}}
 	// 1. imports: all are matched before anything is allocated or written
 	var bound []mExport
 	for _, im := range spec.Imports {
@@ -216,7 +219,7 @@ func (m *model) instantiate(spec *ModSpec) instResult {
 	res := instResult{Inst: in}
 	// 3. globals (initialisers see the CURRENT value of imported globals)
 	for gi, g := range spec.Globals {
-		ng := &mGlob{id: m.id(), typ: g.Type, definedIn: spec.Name, definedIdx: lay.NImpG + gi}
+		ng := &mGlob{id: m.id(), typ: g.Type, definedIn: name, definedIdx: lay.NImpG + gi}
 		switch g.Init {
 		case "const":
 			ng.lo, ng.hi = g.Lo, g.Hi
@@ -329,7 +332,7 @@ func (m *model) instantiate(spec *ModSpec) instResult {
 		}
 	}
 	in.live = true
-	m.insts[spec.Name] = in
+	m.insts[name] = in
 	if in.mem != nil {
 		in.mem.owners++
 	}
@@ -389,6 +392,19 @@ func tabGrow(t *mTab, n uint32, init mRef) uint32 {
 	return old
 }
 
+// indirect models call_indirect / return_call_indirect with type (i32)->i32: the callee runs in ITS OWN
+// instance's context whoever the caller is.
+func (m *model) indirect(t *mTab, slot uint32, arg uint64) ([]uint64, string) {
+	if slot >= uint32(len(t.slots)) || t.slots[slot].fn == nil {
+		return nil, trapTable
+	}
+	callee := t.slots[slot].fn
+	if string(callee.typ.Params) != string(tI32) || string(callee.typ.Results) != string(tI32) {
+		return nil, trapSig
+	}
+	return m.call(callee, []uint64{arg})
+}
+
 // call interprets a function of the model. args/results are in wazero's
 // uint64 encoding (v128 takes two).
 func (m *model) call(f *mFunc, a []uint64) ([]uint64, string) {
@@ -437,6 +453,14 @@ func (m *model) call(f *mFunc, a []uint64) ([]uint64, string) {
 		return []uint64{uint64(u(0) + uint32(leafConst(in.spec.ID, 2)))}, ""
 	case "leaf3":
 		return []uint64{uint64(int64(leafConst(in.spec.ID, 3)))}, ""
+	case "leaf4":
+		if in.lay.FT0 < 0 {
+			return []uint64{uint64(u(0) + uint32(leafConst(in.spec.ID, 4)))}, ""
+		}
+		if u(0) == 0 {
+			return []uint64{uint64(uint32(leafConst(in.spec.ID, 4)))}, ""
+		}
+		return m.indirect(in.tabs[in.lay.FT0], u(0)&0xff, uint64(u(0)>>8))
 	case "gget":
 		g := in.globs[s.A]
 		if g.typ.Type == wenc.V128 {
@@ -556,16 +580,8 @@ func (m *model) call(f *mFunc, a []uint64) ([]uint64, string) {
 			return nil, trapTable
 		}
 		return []uint64{b2u(t.slots[u(0)].fn == nil)}, ""
-	case "tcall":
-		t := in.tabs[s.A]
-		if u(0) >= uint32(len(t.slots)) || t.slots[u(0)].fn == nil {
-			return nil, trapTable
-		}
-		callee := t.slots[u(0)].fn
-		if string(callee.typ.Params) != string(tI32) || string(callee.typ.Results) != string(tI32) {
-			return nil, trapSig
-		}
-		return m.call(callee, []uint64{a[1]})
+	case "tcall", "rtcall":
+		return m.indirect(in.tabs[s.A], u(0), a[1])
 	case "tfill":
 		t := in.tabs[s.A]
 		if uint64(u(0))+uint64(u(2)) > uint64(len(t.slots)) {
@@ -591,7 +607,7 @@ func (m *model) call(f *mFunc, a []uint64) ([]uint64, string) {
 		}
 		copy(t.slots[u(0):], src[u(1):u(1)+u(2)])
 		return nil, ""
-	case "ci", "import":
+	case "ci", "rci", "import":
 		return m.call(in.funcs[s.A], a)
 	case "cim":
 		a1, a2 := uint64(uint32(a[len(a)-2])), uint64(uint32(a[len(a)-1]))
